@@ -73,7 +73,8 @@ def generalise(key, known_keys):
         kp = k.split('/')
         if kp[:3] == parts[:3] and set(kp[3:]) <= set(parts[3:]):
             return k
-    return key
+    # not a known finding: report per entry point, clause, kind of request and return_full_data
+    return '/'.join(parts[:3] + [q for q in parts[3:] if q.startswith(('ic=', 'full=', 'labels=', 'nodelist='))])
 
 
 def execute(EoN, case):
@@ -323,7 +324,9 @@ def run(run, tier):
                           {'case': wc, 'clause': clause, 'broken': 'Props/C06.v ' + thm}, no_input=True)
     if proof_broken:
         run.violation('C06/proof', 'Props/C06.v no longer checks (%s): %s; the oracle below found %d violating cases' % (props.get('failed_at'), props['log'][-300:], nviol),
-                      {'broken': 'coq/Props/C06.v', 'log': props['log']}, no_input=True)
+                      {'broken': 'coq/Props/C06.v', 'log': props['log'],
+                       'case': (min(seen.values(), key=lambda x: x[0])[2] if seen else None), 'clause': (min(seen.values(), key=lambda x: x[0])[3] if seen else None)},
+                      no_input=(nviol == 0))
     for key, (size, what, case, clause, obs) in seen.items():
         run.violation(key, what + ' [%s]' % ', '.join(qualifiers(case, OC.Oracle(case, OC.ENTRIES[case['entry']].sir))),
                       {'case': case, 'clause': clause, 'observed_row0': short(obs) if obs else None})
